@@ -68,35 +68,51 @@ Definition sort_bonds (l : list (nat * nat)) : list (nat * nat) := fold_right in
 Definition norm_bond (b : nat * nat) : nat * nat := if Nat.ltb (snd b) (fst b) then (snd b, fst b) else b.
 Definition topology_bonds (added : list (nat * nat)) : list (nat * nat) := sort_bonds (map norm_bond added).
 
-(* repaired ordering (two-variant rule): walk the bond graph from the lowest unplaced atom, emit each bond as
-   (already placed atom, newly placed atom); ring-closing bonds are not emitted.  [fuel] >= number of atoms. *)
+(* repaired ordering (two-variant rule) = trajectory.py:_parent_first_bonds as committed in /repo:
+
+     neighbors = [[] for _ in range(n_atoms)]
+     for b0, b1 in topology.bonds: neighbors[b0.index].append(b1.index); neighbors[b1.index].append(b0.index)
+     placed = [False]*n_atoms; walk = []
+     for root in range(n_atoms):
+         if placed[root]: continue
+         placed[root] = True; stack = [root]
+         while stack:
+             atom = stack.pop()
+             for other in neighbors[atom]:
+                 if not placed[other]: placed[other] = True; walk.append((atom, other)); stack.append(other)
+
+   The stack is a list whose head is the top.  [fuel] bounds the number of pops (each atom is pushed once). *)
 Fixpoint memn (x : nat) (l : list nat) : bool :=
   match l with [] => false | y :: r => Nat.eqb x y || memn x r end.
-Definition frontier (placed : list nat) (b : nat * nat) : bool :=
-  (memn (fst b) placed && negb (memn (snd b) placed)) || (memn (snd b) placed && negb (memn (fst b) placed)).
-Fixpoint grow (fuel : nat) (bonds : list (nat * nat)) (placed : list nat) (out : list (nat * nat))
-  : list nat * list (nat * nat) :=
+Definition nbrs (bonds : list (nat * nat)) (a : nat) : list nat :=
+  flat_map (fun b => (if Nat.eqb (fst b) a then [snd b] else []) ++ (if Nat.eqb (snd b) a then [fst b] else [])) bonds.
+Definition dstate := (list nat * list (nat * nat) * list nat)%type.       (* placed, walk, stack *)
+Definition visit (atom : nat) (st : dstate) (other : nat) : dstate :=
+  let '(placed, walk, stack) := st in
+  if memn other placed then st else (other :: placed, walk ++ [(atom, other)], other :: stack).
+Fixpoint dfs_loop (fuel : nat) (bonds : list (nat * nat)) (st : dstate) : dstate :=
   match fuel with
-  | O => (placed, out)
+  | O => st
   | S f =>
-      match find (frontier placed) bonds with
-      | Some b =>
-          if memn (fst b) placed then grow f bonds (snd b :: placed) (out ++ [(fst b, snd b)])
-          else grow f bonds (fst b :: placed) (out ++ [(snd b, fst b)])
-      | None => (placed, out)
+      let '(placed, walk, stack) := st in
+      match stack with
+      | [] => st
+      | atom :: rest => dfs_loop f bonds (fold_left (visit atom) (nbrs bonds atom) (placed, walk, rest))
       end
   end.
-Definition tree_order (n : nat) (bonds : list (nat * nat)) : list (nat * nat) :=
-  snd (fold_left (fun acc i =>
-                    if memn i (fst acc) then acc else grow n bonds (i :: fst acc) (snd acc))
-                 (seq 0 n) ([], [])).
+Definition pfb_root (n : nat) (bonds : list (nat * nat)) (acc : list nat * list (nat * nat)) (root : nat)
+  : list nat * list (nat * nat) :=
+  if memn root (fst acc) then acc
+  else let r := dfs_loop n bonds (root :: fst acc, snd acc, [root]) in (fst (fst r), snd (fst r)).
+Definition pfb_walk (n : nat) (bonds : list (nat * nat)) : list (nat * nat) :=
+  snd (fold_left (pfb_root n bonds) (seq 0 n) ([], [])).
 
 (* the bond list handed to the kernel: the caller's sorted_bonds verbatim when given *)
 Definition bond_walk (fixed : bool) (n : nat) (added : list (nat * nat)) (explicit : option (list (nat * nat)))
   : list (nat * nat) :=
   match explicit with
   | Some l => l
-  | None => if fixed then tree_order n (map norm_bond added) else topology_bonds added
+  | None => if fixed then pfb_walk n (map norm_bond added) else topology_bonds added
   end.
 
 (* executable certificate that a walk is a proper parent-first walk of the bond graph:
@@ -126,7 +142,7 @@ Definition walk_ok (n : nat) (bonds out : list (nat * nat)) : bool :=
 Definition make_whole_cur (B : box) (added : list (nat * nat)) (xyz : list vec) : list atom_st :=
   make_whole B (topology_bonds added) (init_state xyz).
 Definition make_whole_fix (B : box) (added : list (nat * nat)) (xyz : list vec) : list atom_st :=
-  make_whole B (tree_order (length xyz) (map norm_bond added)) (init_state xyz).
+  make_whole B (pfb_walk (length xyz) (map norm_bond added)) (init_state xyz).
 
 (* ---------------------------------------------------------------- image_frame *)
 (* find_closest_contact(group1, group2): first pair with the strictly smallest wrapped squared distance *)
